@@ -1,5 +1,5 @@
 #!/bin/bash
-# Builds the supervisor and warms the Go build cache (amd64, amd64 -race, 386) so that the first check is fast.
+# Builds the supervisor and warms the Go build cache (amd64, amd64 -race, amd64 -cover, 386) so that the first check is fast.
 set -u
 VERIF="$(cd "$(dirname "${BASH_SOURCE[0]}")" && pwd)"
 export GOFLAGS=-mod=mod GOPROXY=off GOSUMDB=off GOTOOLCHAIN=local
@@ -8,6 +8,7 @@ mkdir -p "$VERIF/.build/setup" "$VERIF/evidence" "$VERIF/replays"
 go build -o "$VERIF/.build/vsup" ./cmd/vsup || exit 1
 go build -tags verif -o "$VERIF/.build/setup/worker" ./cmd/worker || exit 1
 go build -tags verif -race -o "$VERIF/.build/setup/worker-race" ./cmd/worker || exit 1
+go build -tags verif -cover -coverpkg=github.com/DanielSvub/anytype,verifharness/cmd/worker -o "$VERIF/.build/setup/worker-cov" ./cmd/worker || exit 1
 GOARCH=386 CGO_ENABLED=0 go build -tags verif -o "$VERIF/.build/setup/worker-386" ./cmd/worker || exit 1
 rm -rf "$VERIF/.build/setup"
 echo "setup ok"
